@@ -23,4 +23,4 @@ def run(ctx, rep):
         bad = b.calls_to(r"Result::<T, E>::(unwrap|expect|unwrap_or|unwrap_or_default|unwrap_or_else|ok)$")
         rep.check("R17.4", "%s:propagates" % r.split("::", 1)[1], ok and not bad, "%s must return the parser's result (reads %d, swallowing calls %s)" % (r, len(reads), [callee(t)[0] for _b, t in bad]), b.loc(),
                   sample={"entry": r, "reader_calls": len(reads)})
-    rep.floor("R17.4", 10)
+    rep.floor("R17.4", 6)
